@@ -45,7 +45,24 @@ impl<'p> Painter<'p> {
 //@rewriteall <<<draw_fn(>>> => <<<verif_draw(&mut draw_fn,>>>
 //@afterstmt <<<let plus_line_number =>>>| assert(/* @C05:wloc.number.is.new.file.start */ plus_line_number == line_numbers_and_hunk_lengths@.last().0);
 
+/// (R3) `self.line.chars().take_while(|c| c == &'@').count()`: number of leading '@' characters.
+pub uninterp spec fn leading_ats(s: Seq<char>) -> usize;
+#[verifier::external_body]
+pub fn verif_count_leading_ats(s: &str) -> (r: usize)
+    ensures r == leading_ats(s@), is_prefix("@@"@, s@) ==> r >= 2,
+{ unimplemented!() }
+impl AmbiguousDiffMinusCounter {
+    //@ stub src/handlers/hunk_header.rs AmbiguousDiffMinusCounter::must_count
+    //@ stub src/handlers/hunk_header.rs AmbiguousDiffMinusCounter::count_from
+}
+//@ stub src/handlers/hunk_header.rs parse_hunk_header spec=hunk_header.parse_hunk_header
+
 impl<'a> StateMachine<'a> {
+    //@ fn src/handlers/hunk_header.rs StateMachine::test_hunk_header_line
+    //@| ensures r == (is_prefix("@@"@, self.line@) && !(self.state is MergeConflict)),
+    //@ fn src/handlers/hunk_header.rs StateMachine::handle_hunk_header_line spec=hunk_header.handle_hunk_header_line
+    //@rewrite <<<self.line.chars().take_while(|c| c == &'@').count()>>> => <<<verif_count_leading_ats(&self.line)>>>
+    //@rewrite <<<if let &[(_, minus_lines), (_, _plus_lines), ..] = parsed_hunk_header.line_numbers_and_hunk_lengths.as_slice() {>>> => <<<if parsed_hunk_header.line_numbers_and_hunk_lengths.len() >= 2 { let minus_lines = parsed_hunk_header.line_numbers_and_hunk_lengths[0].1;>>>
     //@ fn src/handlers/hunk_header.rs StateMachine::emit_hunk_header_line spec=hunk_header.emit_hunk_header_line
     //@before <<<self.painter.set_highlighter(); self.painter.emit()?;>>>| assert(/* @C01:ehh.keeps.lines.step */ all_lines(&self.painter) =~= all_lines(&old(self).painter));
     //@before <<<let ParsedHunkHeader {>>>| let ghost h1 = self.painter.writer.hist(); assert(only_text_after(h1, h1)); assert(self.painter.output_buffer@ =~= Seq::<char>::empty()); assert(/* @C01:ehh.keeps.lines.step */ all_lines(&self.painter) =~= all_lines(&old(self).painter));
